@@ -724,6 +724,44 @@ theorem mtrace_total {t : Table} (inv : TCq t []) (hcomp : AllComplete t) : ∀ 
       (get_canon inv.shape hd) (inv.shape.range c g d hg hd)
     exact ⟨e, by simp [mtrace, hd, he]⟩
 
+/-- `extract_valid`, general form: if every rotation of every word of `rels'` is among the
+    expanded relators of `rels`, every table yielded by the model of `coset_tables n rels k`
+    is a valid table for the relators `rels'` with at most `max k 1` rows -/
+theorem cosetTables_valid_gen (n : Nat) (rels rels' : List (List Int)) (k fuel : Nat)
+    (hrot : RotClosed rels' (expandedRelatorSet rels)) (hlet' : ∀ w ∈ rels', ∀ x ∈ w, x ∈ allGensOf n)
+    (hlet : ∀ w ∈ rels, ∀ x ∈ w, x ∈ allGensOf n)
+    (hf : (BT.dfs (btProblem n (expandedRelatorSet rels) k) (height k) (.ok (Table.new n))).length ≤ fuel) :
+    ∀ x ∈ cosetTables n rels k fuel, ∀ t', x = .ok t' →
+      ∃ v, t'.view = .ok v ∧ CosetP.Valid (viewTab v) n rels' [] ∧ (viewTab v).size ≤ max k 1 := by
+  intro x hx t' hxt
+  subst hxt
+  unfold cosetTables at hx
+  rw [BT.run_eq_dfs _ (height k) (btProblem_decreasing n _ k) fuel hf] at hx
+  obtain ⟨s, hs, hext⟩ := List.mem_filterMap.mp hx
+  have hreach := (BT.mem_dfs_iff _ (height k) (btProblem_decreasing n _ k) _ s).mp hs
+  have hwR : ∀ u ∈ expandedRelatorSet rels, ∀ y ∈ u, y ∈ allGensOf n :=
+    expandedRelatorSet_letters (S := fun y => y ∈ allGensOf n) (fun y hy => neg_mem_allGensOf hy) hlet
+  cases s with
+  | ok t =>
+    have si : SInv k n rels' t := reach_sinv hrot hlet' hwR hreach
+      (fun t0 h0 => by injection h0 with h0; exact h0 ▸ sinv_new k n rels') t rfl
+    obtain ⟨hcompact, hdef⟩ := btExtract_complete hext
+    have hcan : ∀ c, t.canon c = c := canon_clean si.clean
+    have hcomp : AllComplete t := fun c hc _ g hg => (get_some_iff t c g).mp (hdef c hc g hg)
+    have hwr : ∀ w ∈ rels', WordOK t w := fun w hw y hy => by rw [si.allGens]; exact hlet' w hw y hy
+    obtain ⟨v, _, h1, h2, h3, _⟩ := compact_view_valid (subs := []) si.tcq hcomp si.gens hlet'
+      (fun _ h => by cases h)
+      (fun w hw c hc hl => by
+        obtain ⟨d, hd⟩ := mtrace_total si.tcq hcomp w c (hwr w hw) hc hl
+        by_cases e : d = c
+        · rw [e] at hd; exact hd
+        · obtain ⟨y, hy, _⟩ := si.closed w hw c ⟨d, hd, e⟩
+          cases hy)
+      (fun _ h => by cases h) hcompact
+    exact ⟨v, h1, h2, by have := si.rows; omega⟩
+  | err => simp only [btProblem, btExtract] at hext; injection hext with hext; cases hext
+  | panic => simp only [btProblem, btExtract] at hext; injection hext with hext; cases hext
+
 /-- ○ **`extract_valid`**: for relators over the letters `±1..±n` that are empty or
     cyclically reduced, every table yielded by the model of `coset_tables` (run with enough
     fuel to exhaust the search tree) passes the Boolean Spec `validTable rels []` — complete,
@@ -735,32 +773,7 @@ theorem cosetTables_valid (n : Nat) (rels : List (List Int)) (k fuel : Nat)
     ∀ x ∈ cosetTables n rels k fuel, ∀ t', x = .ok t' →
       ∃ v, t'.view = .ok v ∧ SpecC11.validTable (viewTab v) n rels [] = true ∧ (viewTab v).size ≤ max k 1 := by
   intro x hx t' hxt
-  subst hxt
-  unfold cosetTables at hx
-  rw [BT.run_eq_dfs _ (height k) (btProblem_decreasing n _ k) fuel hf] at hx
-  obtain ⟨s, hs, hext⟩ := List.mem_filterMap.mp hx
-  have hreach := (BT.mem_dfs_iff _ (height k) (btProblem_decreasing n _ k) _ s).mp hs
-  have hwR : ∀ u ∈ expandedRelatorSet rels, ∀ y ∈ u, y ∈ allGensOf n :=
-    expandedRelatorSet_letters (S := fun y => y ∈ allGensOf n) (fun y hy => neg_mem_allGensOf hy) hlet
-  cases s with
-  | ok t =>
-    have si : SInv k n rels t := reach_sinv (rotClosed_expanded hcr) hlet hwR hreach
-      (fun t0 h0 => by injection h0 with h0; exact h0 ▸ sinv_new k n rels) t rfl
-    obtain ⟨hcompact, hdef⟩ := btExtract_complete hext
-    have hcan : ∀ c, t.canon c = c := canon_clean si.clean
-    have hcomp : AllComplete t := fun c hc _ g hg => (get_some_iff t c g).mp (hdef c hc g hg)
-    have hwr : ∀ w ∈ rels, WordOK t w := fun w hw y hy => by rw [si.allGens]; exact hlet w hw y hy
-    obtain ⟨v, _, h1, h2, h3, _⟩ := compact_view_valid (subs := []) si.tcq hcomp si.gens hlet
-      (fun _ h => by cases h)
-      (fun w hw c hc hl => by
-        obtain ⟨d, hd⟩ := mtrace_total si.tcq hcomp w c (hwr w hw) hc hl
-        by_cases e : d = c
-        · rw [e] at hd; exact hd
-        · obtain ⟨y, hy, _⟩ := si.closed w hw c ⟨d, hd, e⟩
-          cases hy)
-      (fun _ h => by cases h) hcompact
-    exact ⟨v, h1, RebaseP.validTable_of_valid h2, by have := si.rows; omega⟩
-  | err => simp only [btProblem, btExtract] at hext; injection hext with hext; cases hext
-  | panic => simp only [btProblem, btExtract] at hext; injection hext with hext; cases hext
+  obtain ⟨v, h1, h2, h3⟩ := cosetTables_valid_gen n rels rels k fuel (rotClosed_expanded hcr) hlet hlet hf x hx t' hxt
+  exact ⟨v, h1, RebaseP.validTable_of_valid h2, h3⟩
 
 end DSymVerif.CosetInvP
